@@ -938,7 +938,12 @@ class Piece:
         # anchors
         fstart, fend = toks[kb].start, toks[k1].end
         ftext = self.sf.text[fstart:fend]
-        for anchor in fs.at:
+        _skip = os.environ.get("VERIF_SKIP_ANCHOR", "")
+        for _ai, anchor in enumerate(fs.at):
+            if _skip == f"{self.unit.name}:{fn.name}:{_ai}":
+                continue
+            if os.environ.get("VERIF_LIST_ANCHORS"):
+                print(f"ANCHORLIST\t{self.unit.name}\t{fn.name}\t{_ai}\t{anchor[0]}\t{str(anchor[1])[:40]}\t{anchor[3].strip()[:30]!r}")
             where, snippet, occ, text = anchor[:4]
             arule = anchor[4] if len(anchor) > 4 else "insert"
             if where == "loop_start":
